@@ -179,8 +179,9 @@ class LazyIntrinsic(Intrinsic):
 class ExtModule:
     """a non-repository module (threading, functools, ...): attributes resolve to intrinsics"""
 
-    def __init__(self, name):
+    def __init__(self, name, fallback=None):
         self.name = name
+        self.fallback = fallback   # repository-relative path of a module to interpret for names without an intrinsic
 
     def __repr__(self):
         return f"<extmodule {self.name}>"
